@@ -6,7 +6,7 @@
    deadline changes and timer firings (Model/Pipe.v).  `preach` is the pair (both directions, shared Close).
    `hist s` is what the callers have observed so far (completed Write/Read calls with their results).
    `lreach tr s` : the same for InmemoryListener with any number of concurrent Dial / Accept / Close calls. *)
-From FH Require Import Model.Base Model.Pipe Model.Listener Proof.PipeProof Proof.ListenerProof.
+From FH Require Import Model.Base Model.Pipe Model.Listener Proof.PipeProof Proof.PipeDrainProof Proof.ListenerProof.
 Open Scope N_scope.
 
 (* ---- the stream: nothing lost, nothing duplicated, order kept, for every interleaving and all sizes ----
@@ -40,11 +40,13 @@ Print Assumptions C33_read_results_wellformed.
        bytes, and every byte successfully written before that moment had already been read;
    (2) call level, reader's side: while anything is still buffered a Read with a non-empty buffer returns data
        with a nil error — never EOF, never a timeout, it does not park (whether or not the pipe is closed);
-   (3) call level: once the pipe is closed and nothing is buffered, Read returns io.EOF at once.
-   (2)+(3)+C33_stream_prefix say: after Close the reader gets exactly the remaining written bytes, then EOF.
-   Not proved: that the number of Reads needed is finite (each Read of (2) consumes a byte or a buffer; the
-   measure argument is not mechanised — the harness drains every closed pipe and checks it reaches EOF). *)
-Theorem C33_close_drains_then_eof_partial :
+   (3) call level: once the pipe is closed and nothing is buffered, Read returns io.EOF at once;
+   (4) the drain: from ANY reachable state in which the pipe is closed, both goroutines are between calls and no read
+       deadline has expired, consecutive Reads (any non-empty buffer size n) each have exactly one outcome, return data
+       with a nil error, and after at most `mu s` = len(cur) + len(chan) + total queued bytes of them the reader has
+       received every byte that was ever successfully written, the buffers are empty, and the next Read returns io.EOF.
+       (The measure mu strictly decreases on every such Read: PipeDrainProof.read_once.) *)
+Theorem C33_close_drains_then_eof :
   (forall tr s later n d earlier, reach tr s -> hist s = later ++ EvR n d REof :: earlier ->
      stopped s = true /\ d = [] /\ read_h earlier = written_h earlier)
   /\
@@ -53,12 +55,26 @@ Theorem C33_close_drains_then_eof_partial :
        rp s' = RIdle /\ wp s' = WIdle /\ exists d, hist s' = EvR n d ROk :: hist s)
   /\
   (forall s n, rp s = RIdle -> stopped s = true -> n <> 0 -> cur s = [] -> chan s = [] -> rdl s <> DFired ->
-     exists s', exec_read s false n = [s'] /\ hist s' = EvR n [] REof :: hist s).
+     exists s', exec_read s false n = [s'] /\ hist s' = EvR n [] REof :: hist s)
+  /\
+  (forall tr s n, reach tr s -> n <> 0 -> closed_idle s ->
+     exists ds s', reads_chain n s ds s' /\ (length ds <= mu s)%nat /\
+                   read_h (hist s') = written_h (hist s') /\ cur s' = [] /\ chan s' = [] /\
+                   exists s'', exec_read s' false n = [s''] /\ hist s'' = EvR n [] REof :: hist s').
 Proof.
   split; [exact eof_means_drained|]. split; [exact read_gets_data|].
+  split; [|exact drain_reads_everything].
   intros s n H1 H2 H3 H4 H5 H6. eexists. split; [apply eof_when_drained; assumption|reflexivity].
 Qed.
-Print Assumptions C33_close_drains_then_eof_partial.
+Print Assumptions C33_close_drains_then_eof.
+
+(* each Read of the drain returns exactly the front of what is pending and makes the measure smaller *)
+Theorem C33_drain_step : forall s soon n,
+  rp s = RIdle -> wp s = WIdle -> n <> 0 -> (cur s <> [] \/ chan s <> []) ->
+  exists s1 d, exec_read s soon n = [s1] /\ rp s1 = RIdle /\ wp s1 = WIdle /\ hist s1 = EvR n d ROk :: hist s /\
+               d ++ pend s1 = pend s /\ (mu s1 < mu s)%nat /\ stopped s1 = stopped s /\ rdl s1 = rdl s.
+Proof. exact read_once. Qed.
+Print Assumptions C33_drain_step.
 
 (* what can happen with a Write racing with Close: it passed its closed-check, Close comes, the reader sees EOF,
    then the Write succeeds — the reader can then still read those bytes (the stream theorem covers them) *)
